@@ -21,6 +21,22 @@ kf("C08", "C08-spirv-matrix-negate", "SPIR-V backend rejects unary minus on a ma
 kf("C08", "C08-pointer-to-matrix-column-argument", "`f(&m[i])` with m a function/private matrix and f taking ptr<_, vecR<f32>> is rejected by the lowerer (\"argument type mismatch (expected ptr<...>, got unknown)\"); WGSL allows the address of a matrix column",
    ["C08|lower|*|*function 'cal' argument #: type mismatch (expected ptr<...>, got unknown)|F4idx/ptrarg-*/*/mat*"])
 
+kf("C08", "C08-forward-reference-inside-bitcast", "the pass that orders module-scope declarations does not look inside a bitcast operand: `bitcast<u32>(K)` with K a const / var / struct / alias declared later in the file is rejected (\"unresolved identifier\" / \"unknown function\"), and `bitcast<i32>(f())` with f declared later is lowered with the callee after the caller, which the SPIR-V backend rejects (\"function # not found in functionIDs\"). Reproducer: `fn h() -> u32 { return bitcast<u32>(K); } const K: i32 = 4;`",
+   ["C08|lower|-|*function host body: unresolved identifier: KC|F8h/const/any/bitcast*", "C08|lower|-|*function host body: unresolved identifier: gp|F8h/var/any/bitcast*",
+    "C08|lower|-|*function host body: unknown function: SI|F8h/struct/any/bitcast*", "C08|lower|-|*function host body: unknown function: AI|F8h/alias/any/bitcast*",
+    "C08|spirv|*|SPIR-V generation error: function # not found in functionIDs|F8h/fn/any/bitcast*",
+    "C08|compile|default|SPIR-V generation error: SPIR-V generation error: function # not found in functionIDs|F8h/fn/any/bitcast*"])
+kf("C08", "C08-forward-reference-after-nested-shadow", "a local declared in a nested block (or a for initialiser) hides the module-scope const/var of the same name from the declaration-ordering pass for the REST of the function, not only until the block ends: `fn h() -> i32 { { let g = 7; } return g; } const g: i32 = 5;` is rejected with \"unresolved identifier: g\" although the final `g` is the (later-declared) module constant; accepted when the constant is declared first",
+   ["C08|lower|-|*function host body: unresolved identifier: g|F8s/const/*/noref/after/decl-after/in-helper", "C08|lower|-|*function host body: unresolved identifier: g|F8s/const/*/noref/after/decl-last/in-helper",
+    "C08|lower|-|*function host body: unresolved identifier: g|F8s/var/*/noref/after/decl-after/in-helper"])
+kf("C08", "C08-bitcast-alias-target", "`bitcast<AI>(4u)` with `alias AI = i32;` is rejected (\"unsupported bitcast target type 'AI'\") wherever the alias is declared",
+   ["C08|lower|-|*bitcast target type: unsupported bitcast target type 'AI'|F8h/alias/only/bitcast-type/*"])
+kf("C08", "C08-case-selector-const-expression", "a case selector that is a const-expression other than a literal or a named constant is rejected: `case SI(4, 2).a:` (\"member access on non-vector call 'SI' in constant expression\"), `case AI(4):` with `alias AI = i32;` (\"unsupported function 'AI' in constant expression\")",
+   ["C08|lower|-|*switch case selector: member access on non-vector call 'SI' in constant expression|F8h/struct/any/case-selector*",
+    "C08|lower|-|*switch case selector: unsupported function 'AI' in constant expression|F8h/alias/any/case-selector*"])
+kf("C08", "C08-module-const-alias-constructor", "a module-scope constant initialised through an alias used as a conversion, `alias AI = i32; const C = AI(4);`, is rejected (\"module constant 'C': unsupported call expression 'AI'\") in every declaration order; the same expression is accepted inside a function",
+   ["C08|lower|-|*module constant 'C': unsupported call expression 'AI'*|F8o/const-alias-conv/*"])
+
 # ---------------------------------------------------------------- C01 (SPIR-V semantics)
 kf("C01", "C01-fmod", "f32 `%` is emitted as OpFMod (floored, sign of divisor); WGSL prescribes the truncated remainder (sign of dividend), e.g. -7.5 % 2.0 gives 0.5 instead of -1.5",
    ["C01|F1/bin/%/*f32*|*|mismatch"])
